@@ -79,7 +79,7 @@ class TrioRun:
     runtime = "trio"
 
     def __init__(self, world: World, pool_cfg, callers: list[Caller], *, choices=(), segs=(), allow_server_close=0,
-                 advances=(), dsegs=(), on_quiescence=None, step_limit=4000, epilogue=None, gate_h2=True, late=(), bursts=()):
+                 advances=(), dsegs=(), on_quiescence=None, step_limit=4000, epilogue=None, gate_h2=True, late=(), bursts=(), policy=None):
         self.world = world
         self.pool_cfg = pool_cfg
         self.callers = callers
@@ -118,6 +118,8 @@ class TrioRun:
         # and a timeout fall into the same loop iteration (cyclic list of 0/1 choices; empty = never)
         self.late = list(late)
         self.li = 0
+        self.policy = policy  # fallback order once the choice list is used up: None = oldest network op first; "reads-first" = what the server
+        # has to say (emit, deliver) and reads before any write, so that peer actions are seen between two writes of an upload
         self.bursts = list(bursts)  # cyclic list: 0 = one action per period, k > 0 = also apply the (k-1)-th other enabled action
         self.bi = 0
         self.winding_down = False
@@ -307,6 +309,10 @@ class TrioRun:
             self.ci += 1
             return acts[i]
         prog = [a for a in acts if a[0] not in OPTIONAL]
+        if self.policy == "reads-first":
+            first = [a for a in prog if a[0] in ("emit", "deliver") or (a[0] == "op" and a[1].kind == "read")]
+            if first:
+                return first[0]
         non_timer = [a for a in prog if a[0] != "timer"]
         return (non_timer or prog or acts)[0]
 
